@@ -827,8 +827,10 @@ fn expand_home(tokens: &mut types::Tokens) {
         let re = Regex::new(ptn).expect("invalid re ptn");
         let home = tools::get_user_home();
         let ss = s.clone();
-        let to = format!("{}$tail", home);
-        let result = re.replace_all(ss.as_str(), to.as_str());
+        // the home directory is text, not a replacement template (it may contain `$`)
+        let result = re.replace_all(ss.as_str(), |caps: &regex::Captures| {
+            format!("{}{}", home, &caps["tail"])
+        });
         s = result.to_string();
 
         buff.push((idx, s.clone()));
